@@ -4,6 +4,7 @@ import CifModel.Spec.DataModel
 import CifModel.Lemmas.StoreRefine
 import CifModel.Lemmas.StoreRefineQ
 import CifModel.Lemmas.StoreRefineS
+import CifModel.Lemmas.StoreRefineR
 /-
   Property C04 — the managed CIF behaves as the documented data model under any API history.
 
@@ -696,6 +697,31 @@ theorem C04_refines_set_value (d : Db) (x : LoopRow) (i : ItemRow) (v : V) (h : 
     (∀ y ∈ d.loops, ¬(y.cid = x.cid ∧ y.loopNum = x.loopNum) → absLoop d' y = absLoop d y) ∧
     d'.loops = d.loops ∧ d'.items = d.items ∧ d'.frames = d.frames ∧ d'.blocks = d.blocks :=
   setAllValues_refines d x i v h hx hi
+
+/-- C04_refines, loop level, proved for remove_item when other items stay in the loop (REMOVE_ITEM_SQL): provided every packet of
+    the loop stores a value for every item (`hcomplete` — what the documentation promises; F30 breaks it and then packets vanish
+    here: `C04_cex_F30`), the loop keeps its category, loses the item's name and column and keeps every packet (same rows, same
+    order, same other cells); every other loop of the CIF is what it was; loop, block and frame tables untouched. -/
+theorem C04_refines_remove_item (d : Db) (x : LoopRow) (i j0 : ItemRow) (h : Inv d) (hx : x ∈ d.loops)
+    (hi : i ∈ d.loopItems x.cid x.loopNum) (hj0 : j0 ∈ d.loopItems x.cid x.loopNum) (hne0 : j0.name ≠ i.name)
+    (hcomplete : ∀ r ∈ d.loopRows x.cid x.loopNum, ∀ j ∈ d.loopItems x.cid x.loopNum, d.hasValue x.cid j.name r = true) :
+    let d' := d.removeItem x.cid i.name
+    let keep := (d.loopItems x.cid x.loopNum).filter (fun j => !(j.name == i.name))
+    absLoop d' x = { category := x.category, names := keep.map (·.nameOrig),
+                     packets := (d.loopRows x.cid x.loopNum).map (fun r => keep.map (fun j => cell d x.cid j r)) } ∧
+    (∀ y ∈ d.loops, ¬(y.cid = x.cid ∧ y.loopNum = x.loopNum) → absLoop d' y = absLoop d y) ∧
+    d'.loops = d.loops ∧ d'.frames = d.frames ∧ d'.blocks = d.blocks :=
+  removeItem_refines d x i j0 h hx hi hj0 hne0 hcomplete
+
+/-- C04_refines, loop level, proved for DESTROY_LOOP_SQL — cif_loop_destroy, and remove_item of a loop's LAST item ("removing a
+    loop's last item removes the loop", with `remove_last_item_removes_loop`): exactly that loop disappears, every other loop of
+    the CIF is what it was, block and frame tables untouched.  No hypothesis beyond `Inv`. -/
+theorem C04_refines_destroy_loop (d : Db) (x : LoopRow) (h : Inv d) :
+    let d' := (d.destroyLoop x.cid x.loopNum).1
+    d'.loops = d.loops.filter (fun l => !(l.cid == x.cid && l.loopNum == x.loopNum)) ∧
+    (∀ y ∈ d.loops, ¬(y.cid = x.cid ∧ y.loopNum = x.loopNum) → absLoop d' y = absLoop d y) ∧
+    d'.frames = d.frames ∧ d'.blocks = d.blocks :=
+  destroyLoop_refines d x h
 
 /-- `absLoops` is what `abs` shows as the loops of a container -/
 theorem C04_absLoops_is_abs (d : Db) (fuel cid : Nat) (code : Str) : (absContainer d (fuel + 1) cid code).loops = absLoops d cid := by
